@@ -5,9 +5,9 @@ import itertools
 from . import alphabet as A
 from . import explore as X
 
-PATH_SYMS = ['d', 'i', 'c', 'b', 'z', 'S0', 'J0', 'S1', 'g']
+PATH_SYMS = ['d', 'i', 'c', 'b', 'z', 'S0', 'J0', 'S1', 'g', 'Y0']
 BACKBONE = ['i', 'i', 'b', 'd', 'd', 'b', 'd', 'b', 'd', 'b']
-DEV_MENU = ['d', 'i', 'c', 'z', 'n', 'b', 'S0', 'J0', 'S1', 'J1', 'X0', 'g']
+DEV_MENU = ['d', 'i', 'c', 'z', 'n', 'b', 'S0', 'J0', 'S1', 'J1', 'X0', 'g', 'Y0']
 
 
 def path_docs(headers_list, depth, seeds=(0,), syms=None):
